@@ -46,12 +46,24 @@ def shards(tier):
         if n >= 2:
             out += [{'kind': 'iv', 'n': n, 'pre': ''.join(t)} for t in itertools.product(ALPHA, repeat=n)]
         out += [{'kind': 'glob', 'n': n, 'pre': a} for a in ALPHA]
+        if n == 1:
+            out += [{'kind': 'multi', 'n': len(t_), 'pre': '', 't': t_} for t_ in MULTI_TARGETS]
         out += [{'kind': 'unordered', 'n': n, 'pre': ''.join(t), 'tm0': m0}
                 for t in itertools.product(ALPHA, repeat=n) for m0 in ((0, 1, 2, 12, 21) if n <= TWO_TAG_N[tier] else (0, 1, 2))]
     return out
 
 
+# targets with SEVERAL tagged residues (offsets up to 11): every K tagged, in three tag layouts
+MULTI_TARGETS = ['KAK', 'KAKKA', 'AKAAAAAAKA', 'KAAAAAAAAAKK', 'AKAKAKAKAKAK']
+
+
 def gen(shard, tier):
+    if shard['kind'] == 'multi':
+        t = shard['t']
+        ks = [i for i, c in enumerate(t) if c == 'K']
+        for layout in ('all1', 'alternate', 'first1-rest2'):
+            yield {'kind': 'multi', 't': t, 'layout': layout}, len(ks), True
+        return
     d = describe(tier)
     n = shard['n']
     pre = shard['pre']
@@ -271,6 +283,43 @@ def check(case, ctx):
                                             if st != 'ok' or list(got) != exp:
                                                 ctx.fail('coverage-list', exp, got, call=['coverage', ts, texts, acc, False],
                                                          given_as=form)
+        ctx.outcome = [ts, nocc]
+    elif kind == 'multi':
+        t = case['t']
+        n = len(t)
+        ks = [i for i, c in enumerate(t) if c == 'K']
+        tags = {'all1': lambda j: [1], 'alternate': lambda j: [1 + j % 2], 'first1-rest2': lambda j: [1] if j == 0 else [2]}[case['layout']]
+        T = (t, {i: tags(j) for j, i in enumerate(ks)}, None, None)
+        ts = render(*T)
+        nocc = 0
+        subs = sorted({t[i:i + m] for m in (1, 2, 3) for i in range(0, n - m + 1)})
+        for q in subs:
+            qk = [i for i, c in enumerate(q) if c == 'K']
+            for assign in itertools.product((None, [1], [2]), repeat=len(qk)):
+                Q = (q, {i: a for i, a in zip(qk, assign) if a}, None, None)
+                qs = render(*Q)
+                for ig in (False, True):
+                    exp = occurs(T, Q, ig)
+                    nocc += len(exp)
+                    st, got = lib.call(p.find_subsequence_indices, ts, qs, ig)
+                    ctx.evals += 1
+                    if st != 'ok' or list(got) != exp:         # ascending offsets
+                        ctx.fail('find-multi', exp, got, call=['find_subsequence_indices', ts, qs, ig])
+                    for acc in (False, True):
+                        e2 = cover(T, [Q], acc, ig)
+                        st, got = lib.call(p.coverage, ts, [qs], acc, ig)
+                        ctx.evals += 1
+                        if st != 'ok' or list(got) != e2:
+                            ctx.fail('coverage-multi', e2, got, call=['coverage', ts, [qs], acc, ig])
+                    e3 = cover(T, [Q], False, ig)
+                    st, got = lib.call(p.percent_coverage, ts, [qs], ignore_mods=ig)
+                    ctx.evals += 1
+                    if st != 'ok' or not lib.close(got, sum(e3) / n, 1e-12):
+                        ctx.fail('percent_coverage-multi', sum(e3) / n, got, call=['percent_coverage', ts, [qs], ig])
+                st, got = lib.call(p.is_subsequence, qs, ts, True)
+                ctx.evals += 1
+                if st != 'ok' or got is not (len(occurs(T, Q, False)) > 0):
+                    ctx.fail('is_subsequence-multi', len(occurs(T, Q, False)) > 0, got, call=['is_subsequence', qs, ts, True])
         ctx.outcome = [ts, nocc]
     elif kind == 'glob':
         # annotations of the whole peptide (charge, adducts, label, global rule, labile, unknown position) belong to the
